@@ -1,20 +1,23 @@
 // C04: fetch, pull and checkout materialise exact content and never clobber edits.
-//  (A) filepathfilter.Filter.Allows in process over table-driven Pattern stubs vs the Lean model;
-//  (B) scenarios with the real binary: a history pushed to a bare remote + fake LFS server, cloned
-//      with smudging skipped (or not), any subset of objects already local or in a reference store,
-//      include/exclude settings, working files edited / emptied / deleted / replaced by other pointers
-//      / same-oid non-canonical pointers / ≥1024-byte look-alikes / read-only, then fetch, pull,
-//      checkout, clone or git checkout; every path is judged and compared with the model's `run`.
+//
+//	(A) filepathfilter.Filter.Allows in process over table-driven Pattern stubs vs the Lean model;
+//	(B) scenarios with the real binary: a history pushed to a bare remote + fake LFS server, cloned
+//	    with smudging skipped (or not), any subset of objects already local or in a reference store,
+//	    include/exclude settings, working files edited / emptied / deleted / replaced by other pointers
+//	    / same-oid non-canonical pointers / ≥1024-byte look-alikes / read-only, then fetch, pull,
+//	    checkout, clone or git checkout; every path is judged and compared with the model's `run`.
 package main
 
 import (
 	"bytes"
 	"fmt"
+	"github.com/git-lfs/git-lfs/v3/tools"
 	"os"
 	"path/filepath"
 	"sort"
 	"strings"
 	"sync"
+	"unicode"
 
 	"github.com/git-lfs/git-lfs/v3/filepathfilter"
 )
@@ -118,12 +121,25 @@ func c04Allowed(inc, exc []c04Pat, path string) bool {
 	return true
 }
 
+// patTexts spells the list as users do: elements separated by commas with or without blanks on either side
+// (tools.CleanPaths trims every element); which spelling is used depends on the patterns only, so a case replays
 func patTexts(ps []c04Pat) string {
-	var t []string
+	seps := []string{",", ", ", " , ", " ,", ",\t"}
+	var sb strings.Builder
+	h := 0
 	for _, p := range ps {
-		t = append(t, p.text)
+		h += len(p.text)
 	}
-	return strings.Join(t, ",")
+	for i, p := range ps {
+		if i > 0 {
+			sb.WriteString(seps[(h+i)%len(seps)])
+		}
+		sb.WriteString(p.text)
+	}
+	if h%4 == 1 && len(ps) > 0 {
+		return " " + sb.String() + " "
+	}
+	return sb.String()
 }
 
 type c04File struct {
@@ -684,6 +700,84 @@ func c04(c *Ctx) {
 	}
 	c04CheckoutTo(c, r.Fork())
 	c04ExtPointer(c, r.Fork())
+	c04PathLists(c, r.Fork())
+}
+
+// c04PathLists: tools.CleanPaths (the parser of lfs.fetchinclude / lfs.fetchexclude / -I / -X) against
+// PathList.cleanPaths on generated lists: elements with blanks (and tabs, newlines) before and after,
+// empty elements, trailing slashes and backslashes (one or two), lists of blanks only.
+func c04PathLists(c *Ctx, r *Rng) {
+	n := c.N(400, 6000)
+	var lines, impl, cases []string
+	elems := []string{"a", "*.bin", "dir", "dir/", "dir//", "d\\", "a b", "x/y/*.dat", "", ".", "/abs", "é.bin", "-", "**/z"}
+	pads := []string{"", "", " ", "  ", "\t", " \n", "\r", "\v\f"}
+	for i := 0; i < n; i++ {
+		var sb strings.Builder
+		k := r.Intn(5)
+		if r.Chance(10) {
+			k = 0
+		}
+		sb.WriteString(Pick(r, pads))
+		for j := 0; j < k; j++ {
+			if j > 0 {
+				sb.WriteString(",")
+			}
+			sb.WriteString(Pick(r, pads))
+			if r.Chance(15) {
+				sb.WriteString(string(r.Bytes(1 + r.Intn(3))))
+			} else {
+				sb.WriteString(Pick(r, elems))
+			}
+			sb.WriteString(Pick(r, pads))
+		}
+		sb.WriteString(Pick(r, pads))
+		in := sb.String()
+		if !c04AsciiSpaceOnly(in) {
+			continue
+		}
+		got := tools.CleanPaths(in, ",")
+		var hs []string
+		for _, g := range got {
+			hs = append(hs, hexOrDash(g))
+		}
+		im := "none"
+		if len(got) > 0 {
+			im = strings.Join(hs, ",")
+		}
+		lines = append(lines, "C04 paths "+hexOrDash(in))
+		impl = append(impl, im)
+		cases = append(cases, fmt.Sprintf("C04 paths seed=%d idx=%d list=%q", c.Seed, i, in))
+		c.R.Count(fmt.Sprintf("paths.elements.%d", len(got)))
+		c.R.Eval(cases[len(cases)-1], len(got) > 1 && strings.ContainsAny(in, " \t"))
+		// direct: no element begins or ends with white space, and a list of blanks only is empty
+		for _, g := range got {
+			if g != strings.TrimSpace(g) {
+				c.R.Add(Finding{Kind: "oracle", What: "an element of an include/exclude list keeps the blanks written around its comma: it is matched as a pattern nobody spelt", Case: cases[len(cases)-1], Impl: fmt.Sprintf("%q", got)})
+				break
+			}
+		}
+	}
+	ans, err := c.Or.Ask(lines)
+	if err != nil {
+		c.R.Add(Finding{Kind: "diff", What: "oracle process failed: " + err.Error(), Broken: "corr.C04.paths"})
+		return
+	}
+	for i := range lines {
+		if ans[i] != impl[i] {
+			c.R.Add(Finding{Kind: "diff", What: "tools.CleanPaths: the list of patterns differs from the model's", Case: cases[i], Impl: impl[i], Model: ans[i], Broken: "corr.C04.paths"})
+		}
+	}
+}
+
+// the model knows the ASCII white space only; strings.TrimSpace also trims U+0085, U+00A0 and the other
+// Unicode spaces, which the generator's random bytes could spell
+func c04AsciiSpaceOnly(s string) bool {
+	for _, ru := range s {
+		if ru > 127 && unicode.IsSpace(ru) {
+			return false
+		}
+	}
+	return true
 }
 
 // c04CheckoutTo: `git lfs checkout --to <file> --ours|--theirs|--base <path>` during a conflicted merge —
